@@ -61,8 +61,20 @@ NOTES = X.NOTES + [
     "until they unregister",
     "eliot start_action/DeferredContext no-ops; defer_to_thread inline; twisted.web.http replaced by a plain namespace of its constants; "
     "os.urandom (upload secret) constant; logging sinks of storage/server.py and storage/immutable.py dropped (arguments still evaluated)",
+    "CrossHair's optional short-circuiting of repr() calls (a fork per call) is switched off by removing the contract docstring of its repr stand-in",
     "direct path: storage_client._StorageServer with a local reference that calls remote_<name> on the real Foolscap adapter objects (no Foolscap wire)",
 ]
+
+# ---- CrossHair: no "short-circuit" choice at repr() ------------------------------------------------------------------------
+# CrossHair's stand-in for the builtin repr() carries a contract docstring ("post[]: True"); every function with a contract is a
+# candidate for short-circuiting (skip the body, return a fresh symbolic str, reconcile at the end of the path), and the choice
+# is a search-tree fork.  The storage code formats "%r" of concrete values in many places (log messages kept in assignments,
+# error texts): each call doubles the number of paths.  Without the docstring repr() is simply executed (the precise behaviour).
+try:
+    from crosshair.libimpl import builtinslib as _chb
+    _chb._repr.__doc__ = None
+except Exception:                                     # pragma: no cover
+    pass
 
 # ---- constants / no-op environment ------------------------------------------------------------------------------------
 _http = NS(**{k: getattr(_tw_http, k) for k in dir(_tw_http) if k.isupper() and isinstance(getattr(_tw_http, k), int)})
